@@ -129,6 +129,24 @@ def check_network(tw, rxns, fails, rng, tags, deep=True):
                 if dump(c2.graph(), NK, ek) != base:
                     bad("CRNCanonicalizer.graph", "renamed / reordered network %s gets a different canonical graph" % (r2,), "invariance")
                     break
+    # one hypergraph object queried through several helpers with different settings, in both orders: each answer must equal
+    # the answer of a helper on a fresh copy (views are per configuration)
+    for order in (((True, False), (True, True), (False, True)), ((True, True), (True, False))):
+        Hs = gen.build_crn(rxns)
+        for ir, st in order:
+            for cls in (CRNCanonicalizer, CRNAutomorphism):
+                try:
+                    a = cls(Hs, include_rule=ir, include_stoich=st).summary()
+                    b = cls(gen.build_crn(rxns), include_rule=ir, include_stoich=st).summary()
+                except Exception as ex:
+                    fails.append({"function": cls.__name__, "violations": ["shared-object: raised %r" % (ex,)], "rxns": rxns, "tags": dict(tags, clause="shared-object")})
+                    continue
+                ka = (a["automorphism_count"], sorted(sorted(map(str, o)) for o in a["orbits"]), dump(a["canon_graph"]) if "canon_graph" in a else None)
+                kb = (b["automorphism_count"], sorted(sorted(map(str, o)) for o in b["orbits"]), dump(b["canon_graph"]) if "canon_graph" in b else None)
+                if ka != kb:
+                    fails.append({"function": cls.__name__ + ".summary", "rxns": rxns, "tags": dict(tags, clause="shared-object"),
+                                  "violations": ["shared-object: include_rule=%s include_stoich=%s on a hypergraph already viewed with other settings gives %s, fresh copy %s"
+                                                 % (ir, st, ka[:2], kb[:2])]})
     return nontriv
 
 
@@ -147,10 +165,15 @@ def run(tw, tier, seed, only=None):
            [({"A": 1, "B": 2}, {"C": 1})], [({"A": 2, "B": 1}, {"C": 1})], [({"A": 1, "B": 1}, {"C": 1})],
            [({"A": 1}, {"B": 1}), ({"A": 1}, {"B": 1})],                                            # repeated reaction
            [({"A": 1, "E": 1}, {"B": 1, "E": 1}), ({"C": 1, "E": 1}, {"D": 1, "E": 1})],              # catalyst, two symmetric branches
-           [({"S%d" % i: 1}, {"S%d" % ((i + 1) % 4): 1}) for i in range(4)]]
+           [({"S%d" % i: 1}, {"S%d" % ((i + 1) % 4): 1}) for i in range(4)],
+           # nodes with several outgoing arcs of different (role, stoich), listed in different orders for exchangeable nodes
+           [({"S": 1}, {"P": 1}), ({"S": 2}, {"Q": 1}), ({"T": 2}, {"U": 1}), ({"T": 1}, {"V": 1})],
+           [({"A": 1, "D": 2}, {"E": 2}), ({"A": 2, "D": 1}, {"E": 1})],
+           [({"A": 2}, {"B": 1}), ({"C": 1}, {"B": 1})], [({"A": 2, "B": 1}, {"C": 1})],
+           [({"X": 1}, {"Y": 2}), ({"X": 3}, {"Z": 1}), ({"W": 3}, {"Z": 1}), ({"W": 1}, {"Y": 2})]]
     nets = fam + nets
-    for _ in range(10 if tier == "quick" else 150):
-        nets.append(gen.random_network(rng, 5 if tier == "quick" else 6, 3 if tier == "quick" else 5, 3))
+    for _ in range(25 if tier == "quick" else 250):
+        nets.append(gen.random_network(rng, 5 if tier == "quick" else 6, 4 if tier == "quick" else 5, 3))
     for i, rxns in enumerate(nets):
         tags = {"family": "symmetric" if i < len(fam) else "enumerated/random"}
         try:
